@@ -318,6 +318,29 @@ theorem shared_options_mutation_breaks_concat :
   decide
 end SharedOptions
 
+/-! ### What `accumulators_per_call` excludes: accumulators that survive the call (a module-level `found_unusual_characters`,
+a class-level list on `Checker`, one Checker reused for all files) -/
+section SharedAccumulators
+open I18n.CliWitness
+
+/-- two files with the same message (msgid `bell`, a BEL in the translation): with per-call accumulators each file gets its
+    `unusual-character-in-translation`; with accumulators that survive the call the second file loses it and gains a
+    `duplicate-message-definition` it does not deserve -/
+theorem shared_accumulator_breaks_no_history :
+    let file : List (String × List Nat) := [("bell", [7])]
+    (checkMessagesPerCall file ++ checkMessagesPerCall file
+      = ["unusual-character-in-translation bell", "unusual-character-in-translation bell"])
+    ∧ runSharedAccumulators ([], []) [file, file]
+      = ["unusual-character-in-translation bell", "duplicate-message-definition bell"]
+    ∧ runSharedAccumulators ([], []) [file, file] ≠ checkMessagesPerCall file ++ checkMessagesPerCall file := by
+  decide
+
+/-- within ONE file the accumulators do their job (non-vacuity of the witness model) -/
+example : checkMessagesPerCall [("bell", [7]), ("bell", [7, 8]), ("x", [8])]
+    = ["unusual-character-in-translation bell", "duplicate-message-definition bell", "unusual-character-in-translation bell"] := by
+  decide
+end SharedAccumulators
+
 /-! ## Hash-seed independence inside the model (`Model/HashOrder.lean`)
 
 A set is iterated in an ARBITRARY order `ord` (any rearrangement of its elements).  Each theorem below is the shape of the
